@@ -1,6 +1,7 @@
 package simharness
 
 import (
+	"github.com/mitchellh/copystructure"
 	"bytes"
 	"context"
 	"crypto/hmac"
@@ -72,7 +73,18 @@ type encEmb struct {
 	Extra string `class:"secret"`
 }
 
+// encOpaque is a value type whose state is unexported (like netip.Addr or big.Int): reflection
+// cannot copy it field by field, so its owner registers a copier with copystructure, which is
+// the library the filter copies events with.
+type encOpaque struct{ hi, lo uint64 }
+
+func init() {
+	copystructure.Copiers[reflect.TypeOf(encOpaque{})] = func(v interface{}) (interface{}, error) { return v, nil }
+}
+
 type encOuter struct {
+	Addr  encOpaque
+	PAddr *encOpaque
 	ID    string `class:"public"`
 	Leaf  encLeaf
 	P     *encLeaf
@@ -195,6 +207,23 @@ func (t encTagMap2) Tags() ([]encrypt.PointerTag, error) {
 	}, nil
 }
 
+// encTagMap3 is a Taggable map with []byte values behind its tags and with keys that need
+// JSON-pointer escaping ("/" is ~1, "~" is ~0), next to untagged keys that look like the
+// escaped or half-unescaped forms.
+type encTagMap3 map[string]interface{}
+
+func (t encTagMap3) Tags() ([]encrypt.PointerTag, error) {
+	return []encrypt.PointerTag{
+		{Pointer: "/bytes-enc", Classification: encrypt.SensitiveClassification, Filter: encrypt.EncryptOperation},
+		{Pointer: "/bytes-hmac", Classification: encrypt.SecretClassification, Filter: encrypt.HmacSha256Operation},
+		{Pointer: "/bytes-redact", Classification: encrypt.SecretClassification},
+		{Pointer: "/k~1slash", Classification: encrypt.SecretClassification, Filter: encrypt.HmacSha256Operation}, // key "k/slash"
+		{Pointer: "/p~1ub", Classification: encrypt.PublicClassification},                                         // key "p/ub"
+		{Pointer: "/k~0tilde", Classification: encrypt.SensitiveClassification, Filter: encrypt.EncryptOperation}, // key "k~tilde"
+		{Pointer: "/t~01x", Classification: encrypt.SecretClassification, Filter: encrypt.HmacSha256Operation},     // key "t~1x"
+	}, nil
+}
+
 // encOdd: maps whose values are POINTERS to strings / wrapper values, maps with
 // non-string keys, and Taggables reached through a pointer or stored as map values.
 type encOdd struct {
@@ -212,6 +241,7 @@ type encOdd struct {
 	MST  map[string][]*encTagStruct
 	IT   interface{} // holds a Taggable map
 	DT   encTagMap2
+	T3   encTagMap3
 	Tail string `class:"sensitive"`
 }
 
@@ -407,6 +437,8 @@ func (g *encGen) leaf(where string) encLeaf {
 
 func (g *encGen) outer(where string, depth int) *encOuter {
 	o := &encOuter{ID: g.canary("keep", where+".ID")}
+	o.Addr = encOpaque{uint64(g.k) + 1, 42}
+	o.PAddr = &encOpaque{7, uint64(g.k) + 3}
 	if g.want() {
 		o.Leaf = g.leaf(where + ".Leaf")
 	}
@@ -667,6 +699,38 @@ func (g *encGen) tagMap2(where string) encTagMap2 {
 	return m
 }
 
+func (g *encGen) tagMap3(where string) encTagMap3 {
+	m := encTagMap3{"n": 1}
+	if g.want() {
+		m["bytes-enc"] = []byte(g.canary(g.treatFor("sensitive,encrypt", true), where+"{bytes-enc}"))
+	}
+	if g.want() {
+		m["bytes-hmac"] = []byte(g.canary(g.treatFor("secret,hmac-sha256", true), where+"{bytes-hmac}"))
+	}
+	if g.want() {
+		m["bytes-redact"] = []byte(g.canary(g.treatFor("secret", true), where+"{bytes-redact}"))
+	}
+	if g.want() {
+		m["k/slash"] = g.canary(g.treatFor("secret,hmac-sha256", true), where+"{k/slash}")
+	}
+	if g.want() {
+		m["p/ub"] = g.canary("keep", where+"{p/ub}")
+	}
+	if g.want() {
+		m["k~tilde"] = g.canary(g.treatFor("sensitive,encrypt", true), where+"{k~tilde}")
+	}
+	if g.want() {
+		m["t~1x"] = g.canary(g.treatFor("secret,hmac-sha256", true), where+"{t~1x}")
+	}
+	// untagged entries whose keys look like escaped / half-unescaped tag segments
+	for _, k := range []string{"t/x", "k~1slash", "k~0tilde", "p~1ub", "t~01x"} {
+		if g.want() {
+			m[k] = g.canary("redact", where+"{"+k+"}(untagged)")
+		}
+	}
+	return m
+}
+
 func (g *encGen) odd(where string) *encOdd {
 	o := &encOdd{}
 	ps := func(w string) *string { s := g.canary("redact", w); return &s }
@@ -722,6 +786,9 @@ func (g *encGen) odd(where string) *encOdd {
 	}
 	if g.want() {
 		o.DT = g.tagMap2(where + ".DT")
+	}
+	if g.want() {
+		o.T3 = g.tagMap3(where + ".T3")
 	}
 	if g.want() {
 		o.Tail = g.canary(g.treatFor("sensitive", true), where+".Tail")
@@ -837,6 +904,8 @@ func (g *encGen) payload(kind int, depth int) (interface{}, string) {
 	case 18:
 		t := g.tagMap("ptagmap")
 		return &t, "*taggable-map"
+	case 25:
+		return g.tagMap3("tagmap3"), "taggable-map(bytes,escaped-keys)"
 	case 24:
 		return &encReport{Root: g.dept("*report.Root", 1+g.d.next(3)), N: 3}, "*struct(mutually-recursive-types)"
 	case 23:
@@ -1021,6 +1090,12 @@ func (c *encCheck) walk(in, out reflect.Value, path string) {
 		}
 		c.walk(in.Elem(), out.Elem(), path)
 	case reflect.Struct:
+		if in.Type() == reflect.TypeOf(encOpaque{}) {
+			if in.CanInterface() && out.CanInterface() && in.Interface().(encOpaque) != out.Interface().(encOpaque) {
+				c.shape = append(c.shape, fmt.Sprintf("%s: non-string value %v became %v (a type with a copier registered in copystructure.Copiers)", path, in.Interface(), out.Interface()))
+			}
+			return
+		}
 		if isWrapperPB(in.Type()) {
 			c.walk(in.FieldByName("Value"), out.FieldByName("Value"), path+".Value")
 			return
@@ -1233,7 +1308,7 @@ func runEncrypt(rc *RunCtx, prop string) {
 			d := &drawRec{tape: tp}
 			fill := []int{15, 40, 80}[tp.Choose(3, "fill")]
 			g := &encGen{d: d, exp: map[string]*leafExp{}, overrides: overrides, fill: fill, withIgnored: withIgnored}
-			kind := tp.Choose(25, "kind")
+			kind := tp.Choose(26, "kind")
 			depth := tp.Choose(3, "depth")
 			var payload interface{}
 			var top string
